@@ -60,7 +60,14 @@ func (n *Node) lookupNS(prefix string) (string, bool) {
 }
 
 // ParseXML parses one complete document.
-func ParseXML(b []byte) (*Node, error) {
+func ParseXML(b []byte) (*Node, error) { return parseXML(b, false) }
+
+// ParseXMLLenient reads a document the way a forgiving stream reader does: a repeated attribute overrides the earlier
+// one, an undeclared prefix stands for itself, and anything outside the first root element is ignored. It exists so that the
+// oracles can still evaluate the *other* conditions of a statement on input that is not well-formed.
+func ParseXMLLenient(b []byte) (*Node, error) { return parseXML(b, true) }
+
+func parseXML(b []byte, lenient bool) (*Node, error) {
 	dec := xml.NewDecoder(bytes.NewReader(b))
 	dec.Strict = true
 	var root, cur *Node
@@ -70,11 +77,17 @@ func ParseXML(b []byte) (*Node, error) {
 			break
 		}
 		if err != nil {
+			if lenient && root != nil && cur == nil {
+				return root, nil
+			}
 			return nil, err
 		}
 		switch t := tok.(type) {
 		case xml.StartElement:
 			if cur == nil && root != nil {
+				if lenient {
+					return root, nil
+				}
 				return nil, fmt.Errorf("more than one root element")
 			}
 			n := &Node{Prefix: t.Name.Space, Local: t.Name.Local, Parent: cur}
@@ -82,7 +95,15 @@ func ParseXML(b []byte) (*Node, error) {
 			for _, a := range t.Attr {
 				k := a.Name.Space + ":" + a.Name.Local
 				if seen[k] {
-					return nil, fmt.Errorf("duplicate attribute %s", k)
+					if !lenient {
+						return nil, fmt.Errorf("duplicate attribute %s", k)
+					}
+					for i := range n.Attrs {
+						if n.Attrs[i].Prefix == a.Name.Space && n.Attrs[i].Local == a.Name.Local {
+							n.Attrs[i].Value = a.Value
+						}
+					}
+					continue
 				}
 				seen[k] = true
 				switch {
@@ -96,7 +117,10 @@ func ParseXML(b []byte) (*Node, error) {
 			}
 			ns, ok := n.lookupNS(n.Prefix)
 			if !ok {
-				return nil, fmt.Errorf("undeclared prefix %q on element %s", n.Prefix, n.Local)
+				if !lenient {
+					return nil, fmt.Errorf("undeclared prefix %q on element %s", n.Prefix, n.Local)
+				}
+				ns = n.Prefix
 			}
 			n.NS = ns
 			seenQ := map[string]bool{}
@@ -105,12 +129,15 @@ func ParseXML(b []byte) (*Node, error) {
 				if a.Prefix != "" {
 					ans, ok := n.lookupNS(a.Prefix)
 					if !ok {
-						return nil, fmt.Errorf("undeclared prefix %q on attribute %s", a.Prefix, a.Local)
+						if !lenient {
+							return nil, fmt.Errorf("undeclared prefix %q on attribute %s", a.Prefix, a.Local)
+						}
+						ans = a.Prefix
 					}
 					a.NS = ans
 				}
 				q := a.NS + "\x00" + a.Local
-				if seenQ[q] {
+				if seenQ[q] && !lenient {
 					return nil, fmt.Errorf("duplicate qualified attribute %s", a.Local)
 				}
 				seenQ[q] = true
@@ -123,6 +150,9 @@ func ParseXML(b []byte) (*Node, error) {
 			cur = n
 		case xml.EndElement:
 			if cur == nil {
+				if lenient && root != nil {
+					return root, nil
+				}
 				return nil, fmt.Errorf("unexpected end element %s", t.Name.Local)
 			}
 			if t.Name.Space != cur.Prefix || t.Name.Local != cur.Local {
@@ -131,7 +161,7 @@ func ParseXML(b []byte) (*Node, error) {
 			cur = cur.Parent
 		case xml.CharData:
 			if cur == nil {
-				if strings.TrimSpace(string(t)) != "" {
+				if strings.TrimSpace(string(t)) != "" && !lenient {
 					return nil, fmt.Errorf("character data outside root element")
 				}
 				continue
